@@ -1397,6 +1397,7 @@ impl RevisionQueue {
                 0,
             ],
             text: "",
+            detail: String::new(),
         });
     }
 
